@@ -52,7 +52,7 @@ def enc(x):
     if isinstance(x, bool):
         return {"k": "L", "t": "other", "s": [repr(x)], "m": {}}
     if x is None:
-        return {"k": "L", "t": "none", "s": ["None"], "m": {}}
+        return {"k": "L", "t": "none", "s": list("None"), "m": {}}
     if isinstance(x, int) and 0 <= x <= 9:
         return {"k": "L", "t": "int", "s": [str(x)], "m": {}}
     if isinstance(x, str):
